@@ -2135,6 +2135,7 @@ fn vexpr(e: &Expr) -> R<String> {
                 "target_base.exists()" => "(exists_ target_base)", "target_base.is_dir()" => "(is_dir target_base)",
                 "libfs::is_same_file(source,&target_base)?" => "(same_file source target_base)",
                 "targets.contains(&target_base)" => "(existsb (path_eqb target_base) targets)",
+                "sourcedir!=Component::ParentDir" => "(negb (comp_eqb sourcedir CParent))",
                 other => return Err(format!("validation: unsupported condition `{}`", other)),
             }.to_string())
         }
